@@ -71,9 +71,32 @@ def c07_chain(rng):
     n = 1 + rng.below(3)
     base = dgen.base_tree(rng)
     base = inject(rng, base, ["$required"] * 3 + STRAY, 1, 6)
-    k = rng.below(8)
+    k = rng.below(11)
     if k == 0:
         base[rng.pick(["h", "t"])] = {"$output": False, "inner": rng.pick(STRAY), "z": 1}
+    elif k == 8:
+        # a chain of encodings whose first stage only reshapes (values, flatten, tolist, prefix) and whose later stage
+        # folds the leaves into one string: the subject is validated before ANY stage runs
+        first = rng.pick(["values", "values", "flatten", "tolist:=", "prefix:-"])
+        rest = rng.pick([["join:,"], ["join"], ["base64"], ["json"], ["sha256"], ["prefix:p-", "join: "], []])
+        m = rng.pick(STRAY + ["ok"])
+        if first == "values":
+            base["e"] = {"$encode": [first] + rest, "a": "x", "b": m} if rng.chance(2, 3) else \
+                {"$encode": [first] + rest, ("$mtach" if m in ("$output", "$encode", "$repeat", "$match", "$replace", "$required", "$value", "$decode", "$merge", "$parent") else m): 1, "b": 2}
+        elif first == "flatten":
+            base["e"] = [{"$encode": [first] + rest}, ["x", m], "y"]
+        elif first == "tolist:=":
+            base["e"] = {"$encode": [first] + rest, "a": "x", "b": m}
+        else:
+            base["e"] = [{"$encode": [first] + rest}, "x", m]
+    elif k == 9:
+        # a single reshaping encoding over a subject with a marker (the marker would survive into the output)
+        first = rng.pick(["values", "flatten", "tolist:=", "prefix:-"])
+        m = rng.pick(STRAY + ["ok"])
+        if first in ("values", "tolist:="):
+            base["e"] = {"$encode": first, "a": "x", "b": m}
+        else:
+            base["e"] = [{"$encode": first}, "x", m]
     elif k == 1:
         base["e"] = {"$encode": rng.pick(["json", "base64", "yaml"]), "v": rng.pick(STRAY + ["ok"]), "w": 1}
     elif k == 2:
